@@ -197,6 +197,31 @@ theorem vector_norm_eq (add : α → α → α) (pre post : α → α) (a : Arr 
     rw [h]
     simp [specReduceElem, Arr.map, List.map_map, Function.comp_def]
 
+/-- `view::var` = `divide(sum(square(fabs(input - mean(input, axis, keepdims=True))), axis, keepdims), N - ddof)`:
+    each element is NumPy's variance of exactly the addressed elements — their squared deviations from *their own*
+    mean, summed in C order, divided by `count - ddof`.  The broadcast of the keepdims mean against the input is the
+    index map C06 proves (`proj R true`); element operations abstract. -/
+theorem var_eq_mean_sq_dev (add sub : α → α → α) (sqabs : α → α) (divn : α → Nat → α) (a : Arr α)
+    (axis : AxisArg) (ddof : Nat) (keep : Bool) (hs : Pos a.shape) (hv : ValidAxes a.shape.length axis) :
+    ∃ v, var add sub sqabs divn a axis ddof keep = some v ∧
+      v.shape = specShape a.shape (axisSet a.shape.length axis) keep ∧
+      ∀ j, InShape j v.shape →
+        v.get j = specVarElem add sub sqabs divn a (axisSet a.shape.length axis) keep ddof j :=
+  var_spec add sub sqabs divn a axis ddof keep hs hv
+
+/-- `view::stddev` = `sqrt(var(…))`, element-wise -/
+theorem stddev_eq_sqrt_var (add sub : α → α → α) (sqabs sqrt : α → α) (divn : α → Nat → α) (a : Arr α)
+    (axis : AxisArg) (ddof : Nat) (keep : Bool) (hs : Pos a.shape) (hv : ValidAxes a.shape.length axis) :
+    ∃ v, stddev add sub sqabs sqrt divn a axis ddof keep = some v ∧
+      v.shape = specShape a.shape (axisSet a.shape.length axis) keep ∧
+      ∀ j, InShape j v.shape →
+        v.get j = (specVarElem add sub sqabs divn a (axisSet a.shape.length axis) keep ddof j).map sqrt := by
+  obtain ⟨v, h1, h2, h3⟩ := var_spec add sub sqabs divn a axis ddof keep hs hv
+  refine ⟨⟨v.shape, fun j => (v.get j).map sqrt⟩, by simp [stddev, h1], h2, ?_⟩
+  intro j hj
+  show (v.get j).map sqrt = _
+  rw [h3 j hj]
+
 /-! ### accumulate -/
 
 /-- accumulate keeps the source shape -/
@@ -280,5 +305,11 @@ example : reduceElem (fun x y => 31 * x + y) none (Arr.iota [2,3,2]) (some [1]) 
     = some ((6 * 31 + 8) * 31 + 10) := by decide
 example : accumulateElem (fun x y => 31 * x + y) (Arr.iota [2,3]) 1 [1,2] = some ((3 * 31 + 4) * 31 + 5) := by decide
 example : ¬ ValidAxes 2 (some [0, -2]) ∧ ¬ ValidAxes 2 (some [2]) := by decide
+-- mean / var of the rows of [[1,2,3],[4,5,6]] over exact "rationals as (numerator, denominator)" would need a field;
+-- over Nat with truncating division the statements still compute: mean = [2,5], var (ddof 0) = [(1+0+1)/3, …] = [0,0]
+example : (mean (· + ·) (fun x n => x / n) (Arr.iota [2,3]) (some [-1]) false).map (fun v => (v.shape, v.get [1]))
+    = some ([2], some 4) := by decide
+example : specVarElem (· + ·) (fun x y => x - y) (fun x => x * x) (fun x n => x / n) (Arr.iota [2,3]) [1] false 0 [1]
+    = some ((0 + 0 + 1) / 3) := by decide
 
 end NmVerif.Props.C08
